@@ -84,7 +84,9 @@ impl UnitRunner for C11 {
   fn unit(&mut self, _payload: &str, unit: u64, out: &mut WorkerOut) {
     let g = &self.gs[unit as usize];
     let nblocks: usize = g.iter().map(|r| r.len()).sum();
-    let kinds: Vec<&str> = if self.tier == Tier::Thorough && nblocks <= 4 { KINDS_T.to_vec() } else if self.tier == Tier::Thorough { vec!["f64", "u8", "string", "i64"] } else { KINDS_Q.to_vec() };
+    // one dispatch arm per kind: the smallest grids (up to two blocks; three in the thorough tier) run for every kind
+    let every_kind = ["f64", "u8", "string", "i64", "bool", "r64", "c64", "i8", "i16", "i32", "i128", "u16", "u32", "u64", "u128", "f32"];
+    let kinds: Vec<&str> = if nblocks <= self.tier.pick(2, 3) { every_kind.to_vec() } else if self.tier == Tier::Thorough && nblocks <= 4 { KINDS_T.to_vec() } else if self.tier == Tier::Thorough { vec!["f64", "u8", "string", "i64"] } else { KINDS_Q.to_vec() };
     let shape_txt = g.iter().map(|r| r.iter().map(|b| format!("{}x{}", b.0, b.1)).collect::<Vec<_>>().join(" ")).collect::<Vec<_>>().join(" ; ");
     let valid = validity(g);
     for kind in kinds {
